@@ -286,6 +286,15 @@ pub mod unit {
         requires tighten_rel(g0, g1), valid_f_checked(g0), !valid_f_doc(g0)
         ensures sat_general_f(g0, upper_eq(g0.upper_bound)), !sat_general_f(g1, upper_eq(g0.upper_bound)), upper_eq(g0.upper_bound) > 0
     {}
+    /// C37 AS STATED: normalising a general constraint that the code DECLARES valid for fungible use
+    /// (is_valid_for_fungible_use() == true, i.e. valid_f_checked) never changes which amounts it accepts.
+    /// EXPECTED TO FAIL -- known finding, listed in known_findings.txt and replayed on the real crate in
+    /// finding_replay/: with an empty allowlist and a positive (or unbounded) upper bound the code's validity
+    /// check passes, and the first step of normalize (tighten_rel, proved inside `normalize`) lowers the upper bound to 0.
+    pub proof fn lemma_normalize_keeps_fungible_acceptance_KNOWN_FINDING(g0: GeneralResourceConstraint, g1: GeneralResourceConstraint, a: int)
+        requires tighten_rel(g0, g1), valid_f_checked(g0), a >= 0
+        ensures sat_general_f(g0, a) <==> sat_general_f(g1, a)
+    {}
     pub open spec fn exact_rel(g1: GeneralResourceConstraint, g2: GeneralResourceConstraint) -> bool {
         &&& g2.lower_bound == g1.lower_bound
         &&& g2.upper_bound == g1.upper_bound
